@@ -2,7 +2,7 @@
 # mut.sh <patch> <check>...: applies the patch to a scratch worktree of /repo's HEAD (never to /repo),
 # runs the checks against it (quick tier) and prints one line per check. The worktree is /tmp/mutwt.
 V=$(cd "$(dirname "$0")/.." && pwd)
-W=/tmp/mutwt
+W=${MUTWT:-/tmp/mutwt}
 p=$(realpath "$1"); shift
 if [ ! -d $W ] || [ "$(git -C $W rev-parse HEAD)" != "$(git -C /repo rev-parse HEAD)" ]; then
   git -C /repo worktree remove --force $W 2>/dev/null; rm -rf $W; git -C /repo worktree add -q --detach $W HEAD || exit 2
